@@ -42,6 +42,8 @@ StepFailing(ev) ==
          (IF ev.status = "ok" /\ ev.post = ev.pre /\ ev.ser_eq /\ ev.acc_eq THEN <<>> ELSE <<"reload_identity">>)
          \o (IF ev.status = "ok" /\ ev.cls = "RunningOrder" /\ ev.completed_eq
              THEN <<>> ELSE <<"reload_completed">>)
+    [] ev.k = "parse" ->        \* recorded only when the library read a document differently from the reference parser
+         <<IF ev.status = "ro" THEN "parse_faithful_ro" ELSE "parse_faithful_msg">>
     [] OTHER -> <<>>            \* "idle": only continuity is checked
 
 Judge(ev) ==
